@@ -13,7 +13,7 @@ M = [
     # (id, checks, file, old, new)
     ("C01-a", ["C01"], "jade/hpc/hpc_submitter.py", "                if job.name in submitted_jobs_by_name:\n                    continue\n", ""),
     ("C01-b", ["C01"], "jade/jobs/cluster.py", "        self._job_status.batch_index = batch_index\n", ""),
-    ("C02-a", ["C02"], "jade/hpc/hpc_submitter.py", "        if not job.blocked_by:\n            return False\n", "        return False\n"),
+    ("C02-a", ["C02", "C07"], "jade/hpc/hpc_submitter.py", "        if not job.blocked_by:\n            return False\n", "        return False\n"),
     ("C02-b", ["C02"], "jade/jobs/job_queue.py", "        elif job.get_blocking_jobs():\n", "        elif False:\n"),
     ("C03-a", ["C03", "C04"], "jade/result.py", "        return self.return_code != 0 and self.status == JobCompletionStatus.FINISHED.value\n",
      "        return self.return_code != 0\n"),
